@@ -18,6 +18,7 @@ CONSTANTS MaxL,         \* tape length 0..MaxL
           TeeOnErr,     \* FALSE: the tee drops data returned together with an error       (mutant)
           PadShort,     \* TRUE : short TLS body read hands back the zero-padded buffer    (mutant)
           PortFromHost, \* TRUE : the port is rewritten as well                            (mutant)
+          Pooled,       \* TRUE : the replay aliases a pooled scratch buffer the next sniff overwrites (mutant)
           InPlace       \* TRUE : Sniffer.UDP decrypts the datagram in place (defect D3 of this tree)
 
 VARIABLES tape,     \* the scenario: [kind, L, cuts, K, end, H, T, host]
@@ -134,8 +135,15 @@ Ret == /\ pc = "ret"
                                err |-> FALSE, hostBefore |-> "ip", portBefore |-> "p",
                                hostAfter |-> IF rewritten THEN "h" ELSE "ip",
                                portAfter |-> IF rewritten /\ PortFromHost THEN "q" ELSE "p"], 0)
-       /\ pc' = "done"
+       /\ pc' = "later"
        /\ UNCHANGED <<tape, filled, pos, lim, replay, rewritten>>
+
+\* the server dials the target and only then writes the replay bytes; other hooked streams are sniffed meanwhile
+Later == /\ pc = "later"
+         /\ LET held == IF Pooled THEN [i \in 1..Len(replay) |-> 0] ELSE replay IN
+            mon' = MonStep(mon, [ev |-> "Later", scn |-> 0, replayLen |-> Len(held), prefixOk |-> held = Upto(Len(held)), others |-> 1], 0)
+         /\ pc' = "done"
+         /\ UNCHANGED <<tape, filled, pos, lim, replay, rewritten>>
 
 \* ------------------------------------------------------------------ Sniffer.UDP (quic.ReadCryptoPayload)
 \* initial: header parsed, AEAD opens, client hello (with SNI iff host); badtag: header parsed, AEAD fails;
@@ -153,7 +161,7 @@ Init == /\ tape \in TCPTapes \cup UDPTapes
         /\ pc = "start" /\ filled = 0 /\ pos = 0 /\ lim = 0 /\ replay = <<>> /\ rewritten = FALSE
         /\ mon = IF IsUDP(tape) THEN MonInit ELSE MonStep(MonInit, TapeEvent(tape), 0)
 
-Next == Arm \/ Probe \/ Other \/ HTTPFirst \/ HTTPFill \/ TLSLen \/ TLSBody \/ TLSDone \/ Clear \/ Ret \/ UDPCall
+Next == Arm \/ Probe \/ Other \/ HTTPFirst \/ HTTPFill \/ TLSLen \/ TLSBody \/ TLSDone \/ Clear \/ Ret \/ Later \/ UDPCall
 
 Spec == Init /\ [][Next]_vars
 GenSpec == Init /\ [][FALSE]_vars          \* the scenarios are the initial states
